@@ -8,3 +8,7 @@ $T out-of-scope - "de-duplication of reported dependencies / of created director
 $T out-of-scope - "an I/O error of the log write / of a stat is ignored: error handling of the filesystem is not one of the properties (a torn record is repaired on the next load)" p00039 p00051 p00054
 $T out-of-scope - "explain output" p00057 p00058
 $T equivalent - "set(Running) and create_parent_dirs exchanged: both still precede Runner::start" p00068
+$T equivalent - "independent statements exchanged" p00074 p00099 p00102 p00103
+$T out-of-scope - "trace output" p00081
+$T equivalent - "dependents are promoted before the finished step is recorded: their own dirty checks still run after both (same loop iteration), and an error from record_finished still aborts" p00087
+$T out-of-scope - "an I/O error (stat, log write) is ignored: filesystem error handling is not one of the properties" p00088 p00094 p00095 p00101
